@@ -337,21 +337,34 @@ def _check_api(ctx: Ctx, c: dict):
     d = ctx.driver("drv_sh")
     log: list[bytes] = []
     stream = LogIO(log)
-    script_out = io.StringIO()
+    # the script objects of the case: number 0 is given to the constructor unless the case says otherwise ("ctor_script":
+    # null = the terminal is constructed without a script); ["script", who, k] attaches script k (null: none) to an object
+    # by assigning its public attribute `shellscript_out`, the way tupimage.testing.cli starts a new recording
+    scripts = [io.StringIO() for _ in range(c.get("scripts", 1))]
+    first = c.get("ctor_script", 0)
     term = GraphicsTerminal(out_command=stream, out_display=stream, in_response=LogIO([]), in_userinput=LogIO([]),
-                            max_command_size=c.get("max"), num_tmux_layers=c.get("tmux", 0), shellscript_out=script_out,
+                            max_command_size=c.get("max"), num_tmux_layers=c.get("tmux", 0),
+                            shellscript_out=None if first is None else scripts[first],
                             force_placeholders=bool(c.get("fp", False)), force_direct_transmission=bool(c.get("fd", False)))
     # derived terminals: every object below shares the streams and the script with `term`; whatever any of them
     # writes to the streams is part of "what the library wrote to the terminal"
     terms = {"0": term}
+    # which script the CALLER attached to each object (kept here, never read back from the object), and for every script
+    # the writes that reached the terminal while it was the one attached to the object that wrote them
+    attached = {"0": first}
+    cur = "0"
+    during: dict = {k: [] for k in range(len(scripts))}
+    switches = 0
     for op in c["ops"]:
         name = op[0]
         ctx.count("api-op:" + name)
         if name == "use":               # switch the object the following operations are called on
             term = terms[str(op[1])]
+            cur = str(op[1])
             continue
         if name == "clone":             # ["clone", src, dst, {clone_with kwargs}]
             terms[str(op[2])] = terms[str(op[1])].clone_with(**op[3])
+            attached[str(op[2])] = attached[str(op[1])]
             for kw in op[3]:
                 ctx.count("api-clone_with:" + kw)
             if not op[3]:
@@ -363,23 +376,44 @@ def _check_api(ctx: Ctx, c: dict):
             setattr(terms[str(op[1])], op[2], op[3])
             ctx.count("api-setattr:" + op[2])
             continue
+        if name == "script":            # ["script", who, k]: from now on object `who` logs to script k (null: to none)
+            terms[str(op[1])].shellscript_out = None if op[2] is None else scripts[op[2]]
+            ctx.count("api-script-switch:" + ("detach" if op[2] is None else "attach" if attached[str(op[1])] is None else
+                                              "same" if attached[str(op[1])] == op[2] else "other"))
+            attached[str(op[1])] = op[2]
+            switches += 1
+            continue
+        before = len(log)
         _api_op(ctx, term, gc, op)
+        if attached[cur] is not None:
+            during[attached[cur]] += log[before:]
+            if switches:
+                ctx.count("api-after-switch:" + name)
     if len(terms) > 1:
         ctx.count("api-derived-terminals", len(terms) - 1)
-    written = stream.getvalue()
-    script = script_out.getvalue().encode("utf-8")
-    ctx.count("api-script-bytes", len(script))
-    # K: one command per stream write, each equal to the model's command for those bytes
-    cmds = []
-    for line in script.decode("utf-8").split("\n"):
-        if not line or line.startswith("# "):
-            continue
-        m = CMD_RE.match(line)
-        cmds.append(m.group(1) if m else line)
-    writes = [w for w in log]
-    model_cmds = [unhx(r).decode("utf-8") for r in d.ask_many(f"command {hx(w)}" for w in writes)]
-    ctx.eq("api: script commands", c, cmds, model_cmds)
-    judge_script(ctx, c, script, written, c.get("sh", 1), "public GraphicsTerminal path")
+    if len(scripts) == 1 and first == 0 and not switches and b"".join(during[0]) != stream.getvalue():
+        raise ToolFailure("C18 harness: attribution of writes to the only script lost bytes")
+    for k, script_out in enumerate(scripts):
+        writes = during[k]
+        written = b"".join(writes)
+        script = script_out.getvalue().encode("utf-8")
+        ctx.count("api-script-bytes", len(script))
+        what = "public GraphicsTerminal path"
+        if len(scripts) > 1:
+            ctx.count("api-script:" + ("never-attached" if not writes and not script else "judged"))
+            what += ", script #%d of %d: the bytes the terminal received while it was the attached one" % (k, len(scripts))
+        # K: one command per stream write, each equal to the model's command for those bytes
+        cmds = []
+        for line in script.decode("utf-8").split("\n"):
+            if not line or line.startswith("# "):
+                continue
+            m = CMD_RE.match(line)
+            cmds.append(m.group(1) if m else line)
+        model_cmds = [unhx(r).decode("utf-8") for r in d.ask_many(f"command {hx(w)}" for w in writes)]
+        ctx.eq("api: script commands" + ("" if len(scripts) == 1 else " (script #%d)" % k), c, cmds, model_cmds)
+        if not script and not written and len(scripts) > 1:
+            continue                    # an empty script prints nothing
+        judge_script(ctx, c, script, written, c.get("sh", 1), what)
 
 
 # ---------------------------------------------------------------------------------------
@@ -547,6 +581,10 @@ def cases(ctx: Ctx):
     yield from derived_grid(rng)
     for i in range(80 if quick else 800):
         yield gen_api_derived(rng, i)
+    # public paths while the script is switched between calls
+    yield from scripted_grid(rng)
+    for i in range(60 if quick else 800):
+        yield gen_api_scripted(rng, i)
 
 
 def gen_api_ops(rng, n):
@@ -679,6 +717,110 @@ def gen_api_derived(rng, i):
     return c
 
 
+# Recordings: one long-lived terminal whose `shellscript_out` is pointed at a new script object between calls (one script
+# per recording, the way tupimage.testing.cli does it), detached, and pointed back at an earlier script.  Nothing that
+# decides WHERE the log goes may be remembered from an earlier call: every script must reproduce exactly the bytes the
+# terminal received while that script was the one attached to the object that wrote them.
+SCRIPTED_KINDS = ["transmit", "transmit-chunked", "transmit-placed", "transmitfile", "transmitpath", "put", "placeholder-cursor", "placeholder-abs",
+                  "placeholder-lf", "placeholder-nosave", "write", "writestr", "writecmd", "move", "moveabs", "margins", "scroll", "clear-line",
+                  "clear-screen", "clear-reset"]
+
+
+def _op_of_kind(rng, kind):
+    if kind.startswith("transmit") and kind not in ("transmitfile", "transmitpath"):
+        size = rng.choice([150, 300, 700]) if kind == "transmit-chunked" else rng.randrange(0, 40)
+        payload = bytes(rng.choice([rng.randrange(256), 45, 0]) for _ in range(size))
+        return ["transmit", rng.randrange(1, 2**32), payload.hex(), [2, 3, rng.randrange(1, 300)] if kind == "transmit-placed" else None]
+    if kind == "transmitfile":
+        return ["transmitfile", rng.randrange(1, 2**24), rng.choice([b"/tmp/x.png", b"-/odd name", b"/tmp/a b's.png"]).hex()]
+    if kind == "transmitpath":
+        return ["transmitpath", rng.randrange(1, 2**24), bytes(rng.randrange(256) for _ in range(rng.randrange(1, 90))).hex()]
+    if kind == "put":
+        return ["put", rng.randrange(1, 2**32), rng.randrange(0, 2**24), rng.randrange(1, 5), rng.randrange(1, 9)]
+    if kind.startswith("placeholder-"):
+        return ["placeholder", rng.choice([1, 255, 256, 0x10000, 0x1020304, 0xFFFFFFFF, rng.randrange(1, 2**32)]), rng.choice([0, 1, 255, 0xFFFFFF]),
+                rng.randrange(1, 6), rng.randrange(1, 4), kind.split("-")[1], rng.randrange(0, 50), rng.randrange(0, 20)]
+    if kind == "write":
+        return ["write", bytes(rng.choice([rng.randrange(256), 45, 39, 37, 92]) for _ in range(rng.randrange(1, 40))).hex()]
+    if kind == "writestr":
+        return ["writestr", "rec: 100% 'quoted' \\ back " + "".join(rng.choice(["a", "-", "é", "漢", "\n", "QUJD"]) for _ in range(rng.randrange(0, 8)))]
+    if kind == "writecmd":
+        return ["writecmd", (rng.choice([b"-", b"\x1b[6n", b"\x1b_Gi=1,a=d\x1b\\"]) + b"x" * rng.randrange(0, 9)).hex()]
+    if kind == "move":
+        return ["move", rng.choice([{"up": 3}, {"down": 12}, {"left": 1}, {"right": 100}, {"up": 1, "left": 2}])]
+    if kind == "moveabs":
+        return ["moveabs", rng.choice([{"col": 3}, {"row": 7}, {"col": 0, "row": 0}])]
+    if kind == "margins":
+        return ["margins", rng.randrange(0, 5), rng.randrange(10, 24)]
+    if kind == "scroll":
+        return ["scroll", rng.choice(["up", "down"]), rng.randrange(1, 30)]
+    if kind.startswith("clear-"):
+        return ["clear", kind.split("-")[1]]
+    raise ValueError(kind)
+
+
+def scripted_grid(rng):
+    """every kind of logged call x (script given to the constructor / attached later) x (switched to a new script / detached
+    and re-attached / back to the first script): the same kind of call before and after every switch"""
+    n = 0
+    for kind in SCRIPTED_KINDS:
+        for ctor in (0, None):
+            for shape in ("new", "detach", "back"):
+                o = lambda: _op_of_kind(rng, kind)
+                if shape == "new":
+                    ops = [o(), ["script", 0, 1], o(), ["script", 0, 2], o(), o()]
+                elif shape == "detach":
+                    ops = [o(), ["script", 0, None], o(), ["script", 0, 1], o(), ["script", 0, None], o(), ["script", 0, 2], o()]
+                else:
+                    ops = [o(), ["script", 0, 1], o(), ["script", 0, 0], o(), ["script", 0, 1], o(), ["script", 0, 1], o()]
+                if ctor is None:
+                    ops = [o(), ["script", 0, 0]] + ops
+                c = {"k": "api", "ops": ops, "scripts": 3, "ctor_script": ctor, "sh": 2 if n % 9 == 0 else 1}
+                if kind == "transmit-chunked":
+                    c["max"] = rng.choice([90, 120, 200])
+                if kind in ("transmitfile", "transmitpath") and n % 2:
+                    c["fd"] = True
+                if n % 4 == 3:
+                    c["tmux"] = rng.choice([1, 2])
+                n += 1
+                yield c
+
+
+def gen_api_scripted(rng, i):
+    """random recordings: mixed calls, 2-4 scripts, up to three objects (clone_with copies keep the script that was attached
+    when they were made; a switch concerns the one object it is made on)"""
+    nscripts = rng.randrange(2, 5)
+    ctor = rng.choice([0, 0, None])
+    names = [0]
+    ops = []
+    for _ in range(rng.randrange(4, 12)):
+        r = rng.random()
+        if r < 0.3:
+            ops.append(["script", rng.choice(names), rng.choice(list(range(nscripts)) + [None])])
+        elif r < 0.4 and len(names) < 3:
+            dst = len(names)
+            kw = {}
+            if rng.random() < 0.4:
+                kw["num_tmux_layers"] = rng.choice([0, 1, 2])
+            ops.append(["clone", rng.choice(names), dst, kw])
+            names.append(dst)
+        elif r < 0.5 and len(names) > 1:
+            ops.append(["use", rng.choice(names)])
+        else:
+            for _j in range(rng.randrange(1, 4)):
+                ops.append(_op_of_kind(rng, rng.choice(SCRIPTED_KINDS)))
+    c = {"k": "api", "ops": ops, "scripts": nscripts, "ctor_script": ctor, "sh": 2 if i % 5 == 0 else 1}
+    if rng.random() < 0.5:
+        c["max"] = rng.choice([80, 100, 150, 300, 4096])
+    if rng.random() < 0.3:
+        c["tmux"] = rng.choice([1, 2])
+    if rng.random() < 0.2:
+        c["fd"] = True
+    if rng.random() < 0.25:
+        c["fp"] = True
+    return c
+
+
 def _prefetch(ctx: Ctx, batch: list[dict]):
     """Run the shells once for a whole batch of `data` cases (check_case then finds the results cached)."""
     want: dict[str, list[bytes]] = {"dash": [], "bash": []}
@@ -707,13 +849,20 @@ def run(ctx: Ctx):
                 "the same paths on DERIVED terminals sharing the streams and the script: clone_with(num_tmux_layers / force_placeholders / "
                 "force_direct_transmission), clones of clones, num_tmux_layers / max_command_size / force_* assigned after construction, operations on "
                 "the derived object and on the original in alternation (grid: layers before x after in {0,1,2} x 5 ways of deriving x 2 chunk sizes; random "
-                "histories over up to 4 objects), file transmissions of existing files (sent by name or inlined by a force_direct_transmission object). "
+                "histories over up to 4 objects), file transmissions of existing files (sent by name or inlined by a force_direct_transmission object); "
+                "RECORDINGS on one long-lived terminal: shellscript_out assigned a new script object / None / an earlier script between calls, for "
+                "each of 20 kinds of logged call (one-chunk, chunked and placed transmissions, file transmissions, put, placeholders in 4 forms, "
+                "write bytes / str, writecmd, cursor moves, margins, scrolling, clearing, reset) x script given to the constructor or attached "
+                "later x 3 switching shapes, plus random recordings over 2-4 scripts and up to 3 objects; every script judged against the bytes "
+                "the terminal received while it was the one attached to the object that wrote them. "
                 "distinct = canonical JSON; non-trivial = every case except the float table and hand-written spec scripts")
     ctx.assumptions += [
         "comments contain no newline (the library's callers never pass one; a newline would start a new script line) and no NUL/lone surrogates",
         "`sh` is dash (every shell-run case) and bash (a tenth of the cases and all small families); other shells are not exercised",
         "base64(1) is GNU coreutils: `-w0` disables wrapping",
         "get_cursor_position is deliberately not logged to the script and is not part of the reproduced bytes",
+        "a script is attached by assigning the public attribute `shellscript_out` between (not during) calls; a clone_with copy keeps logging to "
+        "the script that was attached when it was made",
         "derived terminals (clone_with) share the output streams and the script stream with the original: 'the bytes the library wrote' is the "
         "concatenation of what all of them wrote, in order; placements stay virtual (a classic placement on a force_placeholders terminal queries the cursor)",
     ]
